@@ -320,6 +320,33 @@ def interleaved_ok(rows, other, out, case):
         return _interleaved(rows, other, out, case, canon, run_alone, parse_blocks)
 
 
+def retained_ok(rows, out, case):
+    """a caller that keeps every delivered block (list(parse_blocks(...))): each raw-cell block still holds the rows it
+    was delivered with, and no two blocks are one list object"""
+    import warnings
+    from pdtable.io.parsers.blocks import parse_blocks
+    seen = []
+    try:
+        with warnings.catch_warnings():
+            warnings.simplefilter("ignore")
+            kept = []
+            for bt, b in parse_blocks(iter(rows), to="cellgrid"):
+                kept.append((bt.name, b))
+                if isinstance(b, list):
+                    seen.append((len(kept) - 1, [list(r) for r in b]))
+    except Exception:  # noqa: BLE001 — malformed rows: judged elsewhere
+        return
+    for idx, snap in seen:
+        now = [list(r) for r in kept[idx][1]]
+        if now != snap:
+            out.fail("a delivered block changed after the reader moved on (the caller kept it)", case,
+                     {"block": idx, "type": kept[idx][0], "now": now}, snap, key="retained_block_changed")
+            return
+    lists = [id(b) for _, b in kept if isinstance(b, list)]
+    if len(lists) != len(set(lists)):
+        out.fail("two delivered blocks are one and the same list object", case, None, None, key="retained_block_shared")
+
+
 def _interleaved(rows, other, out, case, canon, run_alone, parse_blocks):
     alone = run_alone()
     g1 = canon(parse_blocks(iter(rows), to="cellgrid"))
@@ -406,6 +433,7 @@ def _one(rows, case, out, ops, pending, model_ok, prefix_rng, record):
     oracle(rows, blocks, out, case)
     if prefix_rng is not None and rows:
         oracle_prefix(rows, blocks, prefix_rng.randint(0, len(rows)), out, case)
+        retained_ok(rows, out, case)
         if prefix_rng.random() < 0.35:
             other = [["**o"], ["all"], ["a", "b"], ["-", "text"], ["1", "x"], [], ["**stub"], [], [":t"], ["***d"], ["v"]]
             interleaved_ok(rows, other if prefix_rng.random() < 0.5 else rows, out, case)
